@@ -6,7 +6,8 @@
      [scn  |-> scenario name,
       ev   |-> << [kind |-> "step" | "fail" | "crash", k |-> mutating step number, op |-> spec op name,
                    a |-> path role, b |-> path role, out |-> "ok" | errno name | "fail:E.." | "crash" | "torn:<class>",
-                   e |-> injected errno or "", p |-> prefix class persisted before the fault or "none"] ... >>,
+                   e |-> injected errno or "", p |-> prefix class persisted before the fault or "none",
+                   n |-> byte count of a write (informative; contents are abstracted to version tokens)] ... >>,
       res  |-> "ok" | exception class / errno name | "crash",
       disk |-> << [p |-> path role, v |-> "DIR" | version token | "EMPTY" | "TORN"] ... >>   raw observation after the run,
       rep  |-> << job directories reported by a FRESH Project.check() >> ]
